@@ -134,7 +134,7 @@ def run(ctx):
     ctx.guard(_C14.layout_subset, ctx, py, "C08")
     # frame of the modules under contract (no state kept between calls, arguments left alone): same analysis as C19
     from props import C19 as _C19
-    ctx.guard(_C19.frame_obligations, ctx, py, "C08", {'filters', 'kalman'})
+    ctx.guard(_C19.frame_obligations, ctx, py, "C08", {'kalman', 'util', 'filters'})
 
 
 def _composition_lemma(ctx):
